@@ -750,6 +750,7 @@ def run_structure(ck, thorough):
                                  {'call': 'mesh_to_mesh(...)', 'periodic': periodic, 'dim': dim, 'nvars_fine': nf, 'nvars_coarse': nc, 'params': par,
                                   'fine_index,coarse_index': wit}, match={'kind': 'kron', 'dim': dim})
     # non-square grids (non-periodic): the order of the Kronecker factors matters
+    kron_cases = []
     for k in (2, 4):
         par = {'periodic': False, 'iorder': k, 'rorder': 2, 'equidist_nested': True}
         (nfa, nca), (nfb, ncb) = (15, 7), (7, 3)
@@ -762,6 +763,7 @@ def run_structure(ck, thorough):
         Ra, Rb, Rn = np.asarray(Ta.Rspace.toarray()), np.asarray(Tb.Rspace.toarray()), np.asarray(Tn.Rspace.toarray())
         ok = Pn.shape == (nfa * nfb, nca * ncb) and Rn.shape == (nca * ncb, nfa * nfb)
         wit = None
+        kpairs = []
         if ok:
             for _ in range(600):
                 p = (rng.randrange(nfa), rng.randrange(nfb))
@@ -773,6 +775,11 @@ def run_structure(ck, thorough):
                 if abs(gP - eP) > abs(eP) * F(1, 2 ** 48) or abs(gR - eR) > abs(eR) * F(1, 2 ** 48):
                     ok, wit = False, (p, q)
                     break
+                if len(kpairs) < 60:
+                    kpairs.append((p[0] * nfb + p[1], q[0] * ncb + q[1], gP, abs(eP) * F(1, 2 ** 48), gR, abs(eR) * F(1, 2 ** 48)))
+        if ok:
+            kron_cases.append((k, (nfa, nfb), (nca, ncb), [[fr(x) for x in row] for row in Pa.tolist()], [[fr(x) for x in row] for row in Pb.tolist()],
+                               [[fr(x) for x in row] for row in Ra.tolist()], [[fr(x) for x in row] for row in Rb.tolist()], kpairs))
         nk += 1
         ck.case(key=('kron-nonsquare', k), nontrivial=True)
         if not ok:
@@ -780,6 +787,34 @@ def run_structure(ck, thorough):
                              {'call': 'mesh_to_mesh(...)', 'nvars_fine': (nfa, nfb), 'nvars_coarse': (nca, ncb), 'params': par,
                               'fine_index,coarse_index': wit}, match={'kind': 'kron', 'dim': 2})
     ck.cov['kron_cases'] = nk
+    # the same entries through the Coq entry function kron_rect (theorem C11_kron_acts_per_axis), kernel-evaluated
+    if kron_cases:
+        from harness.props.c02 import qc, qcm
+        from harness.common import coq_list as _cl, parse_coq_value as _pv, eval_outputs as _eo
+        L = ['From Coq Require Import List ZArith QArith Qabs Qcanon.', 'From PySDC Require Import Model.Sweep Model.SweepExec Model.FDnd.',
+             'Import ListNotations.', 'Local Open Scope Qc_scope.',
+             'Definition okq (model got tol : Qc) : bool := Qle_bool (Qabs (this model - this got)%Q) (this tol).']
+        for i, (k, (nfa, nfb), (nca, ncb), Pa_, Pb_, Ra_, Rb_, kp) in enumerate(kron_cases):
+            L.append('Definition Pa%d := mat %s. Definition Pb%d := mat %s. Definition Ra%d := mat %s. Definition Rb%d := mat %s.'
+                     % (i, qcm(Pa_), i, qcm(Pb_), i, qcm(Ra_), i, qcm(Rb_)))
+            L.append("Eval vm_compute in map (fun '(r, c, gp, tp, gr, tr) => okq (kron_rect Qcmult %d%%nat %d%%nat Pa%d Pb%d r c) gp tp "
+                     "&& okq (kron_rect Qcmult %d%%nat %d%%nat Ra%d Rb%d c r) gr tr)%%bool %s."
+                     % (nfb, ncb, i, i, ncb, nfb, i, i,
+                        _cl(['(%d%%nat, %d%%nat, %s, %s, %s, %s)' % (r_, c_, qc(a), qc(b), qc(c2), qc(d)) for r_, c_, a, b, c2, d in kp])))
+        rc, out = ck.coqc(ck.write_gen('Data_kron.v', '\n'.join(L) + '\n'), timeout=900)
+        if rc != 0:
+            ck.obligation('Data_kron.v evaluates', False, out[-1500:])
+            ck.agg.violation('generated Kronecker entry table does not compile', {'log': out[-3000:]}, match={'kind': 'gen'})
+        else:
+            nbad = 0
+            for (k, nfs, ncs, *_rest), o in zip(kron_cases, _eo(out)):
+                for okv in _pv(o):
+                    if not okv:
+                        nbad += 1
+            if nbad:
+                ck.agg.violation('2-D Pspace/Rspace entries differ from the Kronecker-product entry function of the model (kron_rect) in %d sampled entries' % nbad,
+                                 {'cases': [(c[0], c[1], c[2]) for c in kron_cases]}, match={'kind': 'kron-entry', 'dim': 2})
+            ck.obligation('kron_rect = real 2-D Pspace/Rspace entries on %d non-square transfers' % len(kron_cases), nbad == 0)
 
     # ---- restrict()/prolong(): type, shape, dtype, per-component action = matrix applied to that component
     def fill(a):
@@ -1058,7 +1093,7 @@ def run_fft(ck, thorough):
 REQUIRED = ['C11_node_transfer_sound', 'C11_node_transfer_rows_sum_one', 'C11_RP_identity', 'C11_interp_row_sound_affine',
             'C11_space_row_sound', 'C11_scaled_transpose_sound', 'C11_per_row_sound', 'C11_per_row_constants', 'C11_dir_row_sound',
             'C11_per_support_nearest', 'C11_per_support_images', 'C11_dir_support_nearest', 'C11_next_neighbors_spec',
-            'C11_next_neighbors_periodic_spec']
+            'C11_next_neighbors_periodic_spec', 'C11_kron_acts_per_axis']
 
 
 def run(ck):
